@@ -187,6 +187,14 @@ func GenR(rng *Rng, prop string, tier string) *RScript {
 			nT = nP
 			k.ConcurrentStarts = true
 			k.Yields = true
+		} else if rng.Pct(30) {
+			// wider maps: counts whose smaller side is larger than the per-channel share (6:3, 5:2, 3:6 ...; seeded change C16-5)
+			nP = rng.Range(3, 6)
+			nT = rng.Range(2, 6)
+			s.SrcP = s.SrcP[:0]
+			for i := 0; i < nP; i++ {
+				s.SrcP = append(s.SrcP, fmt.Sprintf("%s_%d", srcPrefix, i))
+			}
 		}
 	}
 	if manyToOne {
